@@ -509,6 +509,7 @@ class BasicZoneProcessor: public ZoneProcessor {
       }
 
       mYearTiny = yearTiny;
+      mIsFilled = false; // stays false if the year is out of range
       mNumTransitions = 0; // clear cache
 
       if (yearTiny + LocalDate::kEpochYear < mZoneInfo.startYear() - 1
